@@ -15,6 +15,7 @@ import ParryModel.C08.Theorems9
 import ParryModel.C08.Theorems10
 import ParryModel.C08.Theorems11
 import ParryModel.C08.Theorems12
+import ParryModel.C08.Theorems13
 /-!
 # C08 property theorems: the QBVH stays valid under any history
 
